@@ -217,6 +217,9 @@ func (node *mastNode) findNode(ctx context.Context, m *Mast, key interface{}, op
 			}
 			return cmp <= 0
 		})
+		if err != nil {
+			return nil, 0, err
+		}
 	}
 	options.path = append(options.path,
 		pathEntry{node, i})
